@@ -129,8 +129,8 @@ pub fn c05_step(po: &HubObs, g: &FeeCfg, a: &Action, out: &Outcome, qo: &HubObs,
         return;
     }
     // the rates are backing over claims of the pre-state (C03's definition), the fee parameters are the configured ones
-    let brate = crate::hubcore::expected_rate(po.state.total_bond_bsei_amount.u128(), po.b_claims());
-    let srate = crate::hubcore::expected_rate(po.state.total_bond_stsei_amount.u128(), po.st_claims());
+    let brate = po.bsei_rate_derived();
+    let srate = po.stsei_rate_derived();
     let peg = g.peg;
     let thr = g.thr;
     let charged = brate < thr;
